@@ -180,6 +180,11 @@ def lean_prove(pid, modules=None, thorough=False):
             for mm in re.finditer(r"error: ([^\s:]+\.lean):(\d+):(\d+): (.*)", out):
                 f, ln, msg = mm.group(1), int(mm.group(2)), mm.group(4)
                 cand = [(l, n) for (m, p, l, n) in declared if p.endswith(f) and l <= ln]
+                if not cand:
+                    # the failing declaration sits in an imported module (a lemma file, another property's module)
+                    ip = os.path.join(LEAN, f)
+                    if os.path.exists(ip):
+                        cand = [(l, n) for (l, n) in theorems_in(ip) if l <= ln]
                 if cand:
                     failed.setdefault(cand[-1][1], msg)
                 else:
